@@ -108,7 +108,10 @@ def consume(gen, call, outs, res):
             for _ in range(call["abandon"]):
                 try: outs.append(next(it))
                 except StopIteration: break
-            it.close()
+            try:
+                it.close()
+            except Exception as e:
+                res["close_exc"] = e    # abandoning the output early must terminate cleanly: close() itself raises nothing
     except Exception as e:
         res["exc"] = e
     res["returned"] = True
@@ -147,6 +150,8 @@ def run_with(case, sched):
     for i, (call, outs, res) in enumerate(results):
         mine = set(items_of(call))
         h = None if (case["n"] == 1 and case["m"] == 0) else [(w, it) for w, it in handled if it in mine]
+        if "close_exc" in res:
+            raise Violation(f"call #{i + 1}: closing the abandoned output raised {type(res['close_exc']).__name__}: {res['close_exc']} (abandoning must terminate cleanly) | case={info}") from res["close_exc"]
         try:
             judge(call, outs, res.get("exc"), h)
         except Violation as e:
@@ -218,7 +223,7 @@ def pb_enumerate(tier):
     for n, m, items in [(2, 0, 2), (2, 1, 2), (2, 0, 3), (1, 1, 2), (2, 2, 3)]:
         for raising in ([], [0], [1]):
             for abandon in (None, 1):
-                if raising and abandon is not None: continue
+                if raising and abandon is not None and (n, m, items) != (2, 0, 3): continue   # error + abandonment together: one configuration
                 configs.append({"n": n, "m": m, "items": items, "raising": raising, "fan": {}, "abandon": abandon})
         configs.append({"n": n, "m": m, "items": items, "raising": [1], "fan": {}, "abandon": None, "kinds": {"1": "AssertionError"}})
     if tier == "thorough":
@@ -289,6 +294,8 @@ def run_real_once(case):
     for i, (call, outs, res) in enumerate(results):
         if "other" in res:
             raise Violation(f"call #{i + 1} raised {type(res['other']).__name__}: {res['other']} | case={info}") from res["other"]
+        if "close_exc" in res:
+            raise Violation(f"call #{i + 1}: closing the abandoned output raised {type(res['close_exc']).__name__}: {res['close_exc']} (abandoning must terminate cleanly) | case={info}") from res["close_exc"]
         try:
             judge(call, outs, res.get("exc"), None)
         except Violation as e:
@@ -330,6 +337,9 @@ def real_fixed(tier):
     # more buffered output (> 64 KiB per worker) than the queue's pipe holds while the consumer stalls for 4 s after the first output:
     # workers that are done must still deliver everything they produced
     yield dict(base, n=2, m=0, items=3, raising=[], kinds={}, via="pipes", fan={"0": 4000, "1": 4000, "2": 1}, pause=4.0, watchdog=45)
+    # the filter's own AttributeError / ImportError must reach the caller as such
+    yield dict(base, n=2, m=0, items=4, raising=[1], kinds={"1": "AttributeError"}, via="pipes")
+    yield dict(base, n=2, m=1, items=4, raising=[3], kinds={"3": "ImportError"}, via="coba", fan={str(i): 1 for i in range(4)})
     yield dict(base, n=2, m=1, items=5, raising=[2], kinds={"2": "AssertionError"}, via="pipes",
                then={"items": 3, "items_list": [100, 101, 102], "raising": [], "fan": {}, "abandon": None, "kinds": {}})
 
@@ -340,8 +350,8 @@ SUBCHECKS = [
     Sub(name="pb", run=run_pb, enumerate=pb_enumerate, nontrivial=lambda c: len(c["preemptions"]) >= 1, exhaustive=True,
         quick_shards=4, quick_budget_s=50, thorough_budget_s=1500,
         what="complete enumeration of all schedules with <= 1 preemption (thorough: <= 2 for the smallest) of small configurations (n<=3, items<=5, raising subsets, abandonment)"),
-    Sub(name="real_fixed", run=run_real, enumerate=real_fixed, nontrivial=lambda c: True, exhaustive=False, quick_shards=10, thorough_shards=10,
-        quick_budget_s=60, what="ten fixed real-process cases run every time (incl. CobaMultiprocessor with one process and a positive maxtasksperchild, streams whose first item is None / falsy, and a consumer that stalls while finished workers hold > 64 KiB of buffered outputs): a worker dying by os._exit mid-item for three (n, m) shapes - the call must terminate without duplicated outputs - and a second call on the same object after a filter error"),
+    Sub(name="real_fixed", run=run_real, enumerate=real_fixed, nontrivial=lambda c: True, exhaustive=False, quick_shards=12, thorough_shards=12,
+        quick_budget_s=60, what="twelve fixed real-process cases run every time (incl. CobaMultiprocessor with one process and a positive maxtasksperchild, streams whose first item is None / falsy, and a consumer that stalls while finished workers hold > 64 KiB of buffered outputs): a worker dying by os._exit mid-item for three (n, m) shapes - the call must terminate without duplicated outputs - and a second call on the same object after a filter error"),
     Sub(name="real", run=run_real, strategy=real_cases, nontrivial=nontrivial, classes=classes, quick=24, thorough=640,
         quick_shards=8, thorough_shards=16, quick_budget_s=60, thorough_budget_s=1200,
         what="real spawned workers via Multiprocessor (incl. read_wait) and CobaMultiprocessor; same oracle; OS schedules sampled"),
